@@ -61,6 +61,10 @@ def worlds(tier, seed):
 
     for d in big_population_worlds(tier, seed, engines=[("DE", "SHADE"), ("DEd", "SEA"), ("SHADE", "CMAf"), ("MWEA", "DE")])[::2] + high_dimension_worlds(tier, seed):
         out.append(dict(d, drive="run", request_probe=False, Mh=min(d["Mh"], 4)))
+    # an evaluation budget that runs out in the middle of a population: WHICH individuals are still evaluated depends on the order of evaluation
+    for j, eng in enumerate([("SEA", "DE"), ("DE", "CMAf"), ("LHS", "SHADE"), ("SOB", "SEAX")]):
+        out.append(dict(engines=list(eng), gens=1 + j % 2, Mh=4, seed=s + j, sprout={"kind": "simple", "L": 2}, hib=bool(j % 2), drive="run", request_probe=False, obj="twofunnel",
+                        cutoff=[(15, 9, 22, 3)[j], (8, 14, 5, 11)[j]], pop=(6, 10)[j % 2]))
     # random_seed = 0 is a seed like any other
     for eng in [e for e in shapes_h2() if e[1].startswith("CMA")] + [("SEA",), ("LHS", "SOB"), ("DE", "SHADE")]:
         k += 1
